@@ -1050,7 +1050,23 @@ func (e flattenEngine) c08(res *runner.Result, files map[string]string, root str
 
 func (e flattenEngine) c10(res *runner.Result, run *flatRun, o optSet, changed bool) {
 	fresh := analysis.New(run.Doc)
-	gs := GetterList(DomainOf(run.After))
+	dom := DomainOf(run.After)
+	// a query by operation id has no single answer when several operations carry that id
+	// (the analyzer keeps whichever it met last): such ids are left out of the domain
+	count := map[string]int{}
+	for _, id := range oracle.OpIDs(run.After) {
+		count[id]++
+	}
+	ids := dom.IDs[:0:0]
+	for _, id := range dom.IDs {
+		if count[id] <= 1 {
+			ids = append(ids, id)
+		} else {
+			res.Ev("ambiguous_ids_left_out", 1)
+		}
+	}
+	dom.IDs = ids
+	gs := GetterList(dom)
 	for _, g := range gs {
 		a, b := Answer(g, run.Spec), Answer(g, fresh)
 		res.Evals++
